@@ -224,6 +224,20 @@ func c14Run(c *mon.Ctx, csAny any) {
 		c.Fail("Bits modified its receiver", "bits-mutates", nil)
 	}
 
+	// the statement ties Bits to the encoding the caller holds: an encoding handed out must still be the one Bits agrees with
+	// after another scalar was encoded and the caller appended to the first (wrote into its spare capacity)
+	{
+		var ks keptSet
+
+		ks.keep("Scalar.Encode", s.Encode(), "")
+		ks.keep("Scalar.Encode", mon.Scal(new(big.Int).Xor(v, big.NewInt(0x5555))).Encode(), "")
+		ks.keep("Scalar.Encode", s.Encode(), "")
+
+		if ks.check(c, "bits-vs-encoding-changed-later") && ks.l[0].want != string(oracle.Bytes32(enc)) {
+			c.Count("encode-disagrees-with-held-value")
+		}
+	}
+
 	if v.BitLen() > 1 {
 		c.Seen(cs.S, cs.Move)
 
